@@ -528,10 +528,16 @@ fn merge_stage(prop: &str, mut ev: Value) -> Value {
     for k in ["evaluations", "distinct_nontrivial", "distinct_cases", "observations_compared"] {
         cov.insert(k.into(), sum(&pc[k], &cc[k]));
     }
-    cov.insert(
-        "rule".into(),
-        json!(format!("STAGE 1 (parser level): {} || STAGE 2 (generated crates): {}", pc["rule"].as_str().unwrap_or(""), cc["rule"].as_str().unwrap_or(""))),
-    );
+    // a third or later stage appends to the rule text the earlier stages already folded
+    let label = std::env::var("VERIF_STAGE_LABEL").unwrap_or_else(|_| "generated crates".to_string());
+    let prev_rule = pc["rule"].as_str().unwrap_or("");
+    let rule = if prev_rule.starts_with("STAGE 1") {
+        let n = prev_rule.matches("|| STAGE ").count() + 2;
+        format!("{} || STAGE {} ({}): {}", prev_rule, n, label, cc["rule"].as_str().unwrap_or(""))
+    } else {
+        format!("STAGE 1 (parser level): {} || STAGE 2 ({}): {}", prev_rule, label, cc["rule"].as_str().unwrap_or(""))
+    };
+    cov.insert("rule".into(), json!(rule));
     let mut samples: Vec<Value> = pc["samples"].as_array().cloned().unwrap_or_default();
     samples.truncate(3);
     samples.extend(cc["samples"].as_array().cloned().unwrap_or_default().into_iter().take(3));
